@@ -1,13 +1,16 @@
 """C08 -- concurrent Run calls on one Engine are race-free and equivalent to sequential.
 
-P: go2coq locks type-checks /repo/ruleguard (and quasigo) and regenerates: the shared fields and mutexes of engine /
+P: go2coq locks type-checks /repo/ruleguard (+ quasigo, typematch, textmatch, xtypes, xsrcimporter, goutil, profiling) and regenerates: the shared fields and mutexes of engine /
    engineState, every execution path (static helpers inlined, deferred unlocks placed) of every function that can
    run while Run calls are in flight and reaches the shared state, the site table (function, field, R/W, locks
    held), escaping reference values, struct inventories, package-level variables and the write-site scan.
    coq/tmpl/C08 re-proves over them: sites_disciplined (every path passes the decidable discipline check), lifted by
    the generic RG.Locks.Model.discipline_implies_race_free (any number of threads, any interleaving) to
    run_paths_race_free; findtype_paths_conform (FindType's paths have the shape of the protocol of RG.Locks.Cache,
-   for which findtype_linearizable is proved); run_state_confined; no package-level variable is written.
+   for which findtype_linearizable is proved); run_state_confined; no package-level variable is written;
+   loadtime_objects_read_only: no write site (assignment, element write through a local alias, append, address-taking) of
+   any run-reachable function of any of those packages stores into a struct type reachable from the loaded rule set
+   (regenerated object graph: engine.ruleSet, engineState.env, captures of the filter closures); run_scan_closed.
 K: the cache model (RG.Locks.Cache.run_dep / lone) is executed by vm_compute on the same FindType scripts that the
    harness drives through engineState.FindType (hook), sequentially and from 2/4/16 goroutines; results and cache
    contents are diffed.
@@ -128,7 +131,11 @@ def opt(x):
 def run(c):
     thorough = c.tier == "thorough"
     c.rule = ("an exploration case = one Run call of a round (rule set in {custom filters calling GetType/GetInterface on ~20 "
-              "FQNs, mixed Load-time Type.Is/Implements + Do + comment rules, two merged rules files} x 4 target files x N in "
+              "FQNs, mixed Load-time Type.Is/Implements + Do + comment rules, two merged rules files, 66 type-pattern rules of "
+              "every typematch op incl. $*_ runs / repeated type and length variables / SinkType / expression lists, 24 rules with "
+              "custom filters (locals, loops, user-function calls) + Do bodies + Contains sub-patterns + every textmatch matcher "
+              "kind + comment rules + At/Suggest, both files merged} x {4 small files, 4 'zoo' files applying every filter to 53 "
+              "values of different types / 23 texts in rotation} x N in "
               "{2,4,16} goroutines on ONE engine x cold/warm caches x RunnerState nil/sync.Pool/own) compared with the sequential "
               "baseline; a cache case = one FindType call of a sequential script or a concurrent burst compared with the Coq "
               "model; distinct non-trivial = distinct (rule set, N, phase, state modes, type cache grew?, package cache grew?) "
@@ -159,7 +166,7 @@ def run(c):
     ]
 
     # a private translator binary (main.go + leaf.go + c15.go + locks.go): other families' generators cannot break it
-    c.go2coq_sources = ["locks.go"]
+    c.go2coq_sources = ["locks.go", "locks_loadtime.go"]
     c.build_theories()
     c.require_theories("Locks/*.v")
 
@@ -227,7 +234,8 @@ def run(c):
         # every call through a temporary file named after the pid, which two threads of one process would share)
         modfile = c.harness_modfile()
         c.harness_modfile = lambda: modfile
-        fut_e = ex.submit(explore, hb, c.seed, 22 if not thorough else 420, "explore", thorough)
+        # the budget bounds the EXTRA rounds; one round per (rule set, N) is always run (that alone takes ~25-35 s with -race)
+        fut_e = ex.submit(explore, hb, c.seed, 12 if not thorough else 420, "explore", thorough)
         fut_f = ex.submit(findtype, hb, c.seed, 8 if not thorough else 60, 3 if not thorough else 30, "findtype")
         proved = fut_p.result()
         ex_lines = fut_e.result()
@@ -239,6 +247,12 @@ def run(c):
             k = l.get("k")
             if k == "error":
                 c.obligation("harness:c08-" + tag, False, json.dumps(l)[:1500])
+            elif k == "rules-fired":
+                # rules of the set that deliver reports in the sequential baseline (a rule set that exercises nothing shows here)
+                c.coverage["rules_reporting:" + l["ruleset"]] = len(l["rules"])
+                if l["ruleset"].startswith("loadtime") and len(l["rules"]) < 20:
+                    c.obligation("harness:c08-loadtime-rules-" + l["ruleset"], False,
+                                 "only %d rules of the Load-time-object rule set deliver reports" % len(l["rules"]))
             elif k in ("baseline", "baseline-fresh"):
                 c.count()
                 if not l["agree"]:
